@@ -16,6 +16,11 @@ import (
 
 const (
 	sendChanSize = 512
+
+	// Time a client is given to take a message. One that stopped reading must
+	// not hold the sender, and with it every participant that relays to this
+	// connection, for as long as it keeps its connection open.
+	sendTimeout = 10 * time.Second
 )
 
 // Handler represents a hagall handler.
@@ -267,6 +272,7 @@ func (h *handler) startSending(ctx context.Context) {
 			return
 
 		case msg := <-h.sendChan:
+			h.Conn.SetWriteDeadline(time.Now().Add(sendTimeout))
 			if _, err := h.sender(msg); err != nil {
 				h.disconnect(errors.New("sending message failed").Wrap(err))
 
